@@ -94,3 +94,96 @@ Proof.
     + exists (tnew', newL). split; [left; reflexivity|exact Hp].
 Qed.
 End GensP4.
+
+(* ------------------------------------------------------------------ Open2N2 *)
+From C12 Require Import Gen_O2 Gen_O2MP MP_Open2N2 TableO2 TableO2_Proofs TableO2_Find.
+
+Section GensO2.
+Variable hash : Z -> Z.
+Hypothesis hash_range : forall k, 0 <= hash k < 2 ^ 64.
+
+(* the search bound of a reachable encoding is far below 2^64 (mantissa < 256, exponent <= 56), so `++probe` never wraps *)
+Lemma decode_lt st : enc_inv st -> 0 <= decode st <= 255 * 2 ^ 56.
+Proof.
+  intros Henc. rewrite (decode_val st Henc). destruct Henc as (H0 & H1 & _ & He).
+  assert (0 <= st 1 / 4) by (apply Z.div_pos; lia).
+  assert (0 < 2 ^ (st 1 / 4)) by (apply pow2_pos; lia).
+  assert (2 ^ (st 1 / 4) <= 2 ^ 56) by (apply pow2_le_mono; lia).
+  split; [nia|]. nia.
+Qed.
+
+Lemma find_loop_total t bc key h maxProbe : 0 <= maxProbe <= 255 * 2 ^ 56 -> forall fuel idx probe, 1 <= probe ->
+  (Z.to_nat (maxProbe + 1 - probe) < fuel)%nat ->
+  exists r, find_loop fuel t bc idx probe maxProbe key h = Ok r /\
+    (forall b s, r = Some (b, s) -> 0 <= s <= 2 /\ bky (t b) s = key /\ bsh (t b) s = Gen_O2.pvCalcShortHash h).
+Proof.
+  intros Hmax. induction fuel as [|f IH]; intros idx probe Hp Hf; [lia|].
+  cbn [find_loop]. change (Gen_O2.WasFull _ _ _) with true. cbn [andb].
+  destruct (Z.leb_spec probe maxProbe).
+  - destruct (bucket_find_spec (t (Gen_O2.GetNextBucketIndex idx bc probe)) key h) as (r & Hr & Hcase). rewrite Hr.
+    destruct Hcase as [(-> & _)|(Hr13 & Hrs & Hrk)].
+    + rewrite Z.eqb_refl. rewrite (wrapU_small 64 (probe + 1)) by (change (2 ^ 64) with (256 * 2 ^ 56); lia). apply IH; lia.
+    + destruct (Z.eqb_spec r 0); [lia|]. eexists. split; [reflexivity|]. intros b s Hbs. injection Hbs as <- <-.
+      split; [lia|]. split; assumption.
+  - eexists. split; [reflexivity|]. intros b s Hbs. discriminate.
+Qed.
+
+Lemma find_total L t key h : Tinv hash L t ->
+  exists r, find t L key h = Ok r /\
+    (forall b s, r = Some (b, s) -> 0 <= s <= 2 /\ bky (t b) s = key /\ bsh (t b) s = Gen_O2.pvCalcShortHash h).
+Proof.
+  intros [Hwf _]. unfold find. cbv zeta.
+  set (start := Gen_Base.GetStartBucketIndex h (wrapU 64 (Z.shiftl 1 L))).
+  destruct (bucket_find_spec (t start) key h) as (r & Hr & Hcase). rewrite Hr.
+  destruct Hcase as [(-> & _)|(Hr13 & Hrs & Hrk)].
+  - rewrite Z.eqb_refl. destruct (Hwf start) as (Henc & _). pose proof (decode_lt _ Henc) as Hd.
+    unfold Gen_O2MP.GetMaxProbe. fold (decode (bst (t start))).
+    apply find_loop_total; [exact Hd|lia|lia].
+  - destruct (Z.eqb_spec r 0); [lia|]. eexists. split; [reflexivity|]. intros b s Hbs. injection Hbs as <- <-.
+    split; [lia|]. split; assumption.
+Qed.
+
+Definition gens_inv (gens : list (table * Z)) : Prop :=
+  Forall (fun g => 0 <= snd g <= 63 /\ Tinv hash (snd g) (fst g)) gens.
+Definition gens_hit (gens : list (table * Z)) (key : Z) (r : nat * Z * Z) : Prop :=
+  let '(g, b, s) := r in exists t L, nth_error gens g = Some (t, L) /\ 0 <= s <= 2 /\ bky (t b) s = key.
+
+(* Find across chained generations, Open2N2: never asserts, never runs out of fuel, returns every key stored in any generation *)
+Theorem find_gens_present key : forall gens, gens_inv gens ->
+  (exists g, In g gens /\ Present (snd g) (fst g) key) ->
+  exists r, find_gens gens key (hash key) = Ok (Some r) /\ gens_hit gens key r.
+Proof.
+  induction gens as [|[t L] rest IH]; intros Hinv (g & Hin & Hk); [destruct Hin|].
+  inversion Hinv as [|x xs Hx Hxs]; subst. cbn [fst snd] in Hx. destruct Hx as [HL Ht].
+  cbn [find_gens]. destruct (find_total L t key (hash key) Ht) as (r0 & Hr0 & Hhold). rewrite Hr0.
+  destruct r0 as [[b s]|].
+  - eexists. split; [reflexivity|]. destruct (Hhold b s eq_refl) as (Hs & Hky & _).
+    exists t, L. split; [reflexivity|]. split; assumption.
+  - assert (Hrest : exists g', In g' rest /\ Present (snd g') (fst g') key).
+    { destruct Hin as [<-|Hin]; [|exists g; split; assumption]. exfalso. cbn [fst snd] in Hk.
+      destruct (find_present hash L t key HL Ht Hk) as (r1 & Hr1 & (b & s & E & _)). rewrite Hr0 in Hr1. injection Hr1 as <-. discriminate. }
+    destruct (IH Hxs Hrest) as ([[g1 b1] s1] & Hr1 & (t1 & L1 & Hn & Hs1 & Hk1)). rewrite Hr1.
+    eexists. split; [reflexivity|]. exists t1, L1. split; [exact Hn|]. split; assumption.
+Qed.
+
+Theorem migrate_gens_find newL budget : 0 <= newL <= 63 -> forall gens tnew calls, gens_ok hash newL gens -> Tinv hash newL tnew ->
+  match migrate_gens hash gens tnew newL budget calls with
+  | Ok (gens', tnew', _, _) =>
+      forall k, in_gens gens k \/ Present newL tnew k ->
+        exists r, find_gens ((tnew', newL) :: rev gens') k (hash k) = Ok (Some r) /\ gens_hit ((tnew', newL) :: rev gens') k r
+  | Exn => True
+  | _ => False
+  end.
+Proof.
+  intros HnL gens tnew calls Hg Hnew.
+  pose proof (migrate_gens_spec hash hash_range newL budget ltac:(lia) gens tnew calls Hg Hnew) as Hs.
+  destruct (migrate_gens hash gens tnew newL budget calls) as [[[[gens' tnew'] c'] th]| | |]; try exact Hs.
+  destruct Hs as (Hg' & Ht' & Hk' & _). intros k Hk. apply find_gens_present.
+  - constructor; [cbn [fst snd]; split; [lia|exact Ht']|].
+    apply Forall_rev. unfold gens_ok in Hg'. eapply Forall_impl; [|exact Hg'].
+    intros a (Ha0 & Ha1 & Ha2). split; [lia|exact Ha2].
+  - destruct (Hk' k Hk) as [(g & Hin & Hp)|Hp].
+    + exists g. split; [right; rewrite <- in_rev; exact Hin|exact Hp].
+    + exists (tnew', newL). split; [left; reflexivity|exact Hp].
+Qed.
+End GensO2.
